@@ -3,6 +3,8 @@
 
 package pbft
 
+import auto "github.com/dappledger/AnnChain/gemmill/modules/go-autofile"
+
 // VerifRotateWAL rotates the write-ahead log the way the autofile group's ticker does once the head
 // file has reached its size limit (the head becomes wal.NNN, a new empty head is started).  The /verif
 // drivers use it to put a rotation at a chosen point of a height (build tag "verif").
@@ -24,3 +26,10 @@ func (cs *ConsensusState) VerifWALMaxIndex() int {
 	}
 	return cs.wal.group.MaxIndex()
 }
+
+// VerifGroup hands out the file group under the WAL (the group-level replay driver of /verif writes and
+// rotates through it and runs Group.Search on it).
+func (wal *WAL) VerifGroup() *auto.Group { return wal.group }
+
+// VerifHeightSearchFunc is the comparison catchupReplay and OnStart search the "#HEIGHT: h" markers with.
+func VerifHeightSearchFunc(height int64) auto.SearchFunc { return makeHeightSearchFunc(height) }
